@@ -245,6 +245,15 @@ def rule_python_bookkeeping(ctx):
 
     def step(st, tok):
         return real_step(st, reps[tok]) if st in (ACC, REJ, MID) else REJ
+    # private helper functions and literal constants defined at module level or next to the class (the pure-Python validator lives in a conditional block)
+    helper_defs, block_consts = {}, {}
+    for blk_ in [m.tree.body] + [getattr(x, f_, []) for x in ast.walk(m.tree) if isinstance(x, (ast.If, ast.Try)) for f_ in ("body", "orelse", "finalbody")]:
+        for st_ in blk_:
+            if isinstance(st_, ast.FunctionDef) and st_.name.startswith("_") and not st_.name.startswith("__") and not st_.decorator_list:
+                helper_defs.setdefault(st_.name, st_)
+            elif isinstance(st_, ast.Assign) and len(st_.targets) == 1 and isinstance(st_.targets[0], ast.Name) and isinstance(st_.value, ast.Constant) \
+                    and isinstance(st_.value.value, int) and not isinstance(st_.value.value, bool):
+                block_consts.setdefault(st_.targets[0].id, st_.value.value)
     probs, cells = [], 0
     chunk_p = fn.params()[1]
     try:
@@ -257,6 +266,24 @@ def rule_python_bookkeeping(ctx):
                         def default(f_, a_, k_=None):
                             if f_.endswith(".isascii") and not a_:
                                 return all(t_ == "A" for t_ in chunk)
+                            if f_ in helper_defs:
+                                # a private helper function of the module (also when defined next to the class in a conditional block): its body is evaluated
+                                # in place on the cell, with the module's literal constants of that block
+                                for k__, v__ in block_consts.items():
+                                    t.env.setdefault(k__, v__)
+                                sub_env_keys = [k__ for k__ in block_consts if k__ not in ("self",)]
+                                saved_ = {k__: t.env[k__] for k__ in sub_env_keys}
+                                node_ = helper_defs[f_]
+                                names_ = [x.arg for x in node_.args.args]
+                                if len(names_) != len(a_) or node_.args.vararg or node_.args.kwarg or k_:
+                                    raise AnalysisError(f"call {f_} in validate(): argument binding outside the model")
+                                env_ = {k__: v__ for k__, v__ in t.env.items() if not k__.startswith("self") and k__ != chunk_p}
+                                env_.update(dict(zip(names_, a_)))
+                                sub_ = Tiny(env_, calls={"__dfa_step": step}, default_call=default)
+                                r_ = sub_.run([x for x in node_.body if not (isinstance(x, ast.Expr) and isinstance(x.value, ast.Constant))])
+                                if r_[0] != "return":
+                                    raise AnalysisError(f"call {f_} in validate(): helper ends with {r_[0]}")
+                                return r_[1]
                             raise AnalysisError(f"call {f_} in validate() is not modelled")
                         if roles is not None:
                             env = {"self": Sym("validator"), "self._state": st0, "self._index": idx0, chunk_p: list(chunk), "UTF8_ACCEPT": ACC, "UTF8_REJECT": REJ, TABLE: Sym("transition-table")}
